@@ -24,6 +24,97 @@ type poolSite struct {
 	broken string
 }
 
+// reinitThroughCallers: the acquisition at s sits in a generic helper; for every caller of the helper,
+// on every path of the caller (helper and the closures handed to it entered) every field of the caller's
+// concrete pooled struct is stored into the acquired object before the caller returns.
+func (P *Prog) reinitThroughCallers(r *Result, s *poolSite, testWBR bool, testWBRDetail string) bool {
+	R := P.roles
+	n := 0
+	for _, caller := range P.Funcs {
+		calls := false
+		eachInstr(caller, func(_ *ssa.BasicBlock, _ int, in ssa.Instruction) {
+			if ci := callOf(in); ci != nil && ci.static == s.fn {
+				calls = true
+			}
+		})
+		if !calls || caller == s.fn {
+			continue
+		}
+		res := caller.Signature.Results()
+		if res.Len() != 1 {
+			return false
+		}
+		pt, ok := res.At(0).Type().Underlying().(*types.Pointer)
+		if !ok {
+			return false
+		}
+		st, ok := pt.Elem().Underlying().(*types.Struct)
+		if !ok {
+			return false
+		}
+		n++
+		elemName := typeStr(pt.Elem())
+		spec := &pathSpec{name: "reinit", inlineAll: true}
+		spec.keep = func(f *ssa.Function) bool { return f.Parent() == nil && f != s.fn && !formulaHelper(f) }
+		spec.cond = func(iff *ssa.If) (string, string, string) { return "", "", "" }
+		spec.events = func(in ssa.Instruction) []pathItem {
+			if in == ssa.Instruction(s.call) {
+				return []pathItem{{kind: "GET", in: in}}
+			}
+			stt, ok := in.(*ssa.Store)
+			if !ok {
+				return nil
+			}
+			if base, f := fieldVar(stt.Addr); f != nil && cvi(base) == cvi(s.obj) {
+				return []pathItem{{kind: "SET", val: f.Name(), in: in}}
+			}
+			if cvi(stt.Addr) == cvi(s.obj) {
+				if c, isC := cv(stt.Val).(*ssa.Const); isC && c.Value == nil {
+					var out []pathItem
+					for i := 0; i < st.NumFields(); i++ {
+						out = append(out, pathItem{kind: "SET", val: st.Field(i).Name(), in: in})
+					}
+					return out
+				}
+			}
+			return nil
+		}
+		spec.onReturn = func(rt *ssa.Return) string {
+			rv, ok := retVals(rt)
+			if ok && len(rv) == 1 && cvi(rv[0]) == cvi(s.obj) {
+				return "obj"
+			}
+			return "other"
+		}
+		pres := P.enumPathsSpec(caller, nil, spec)
+		for i := 0; i < st.NumFields(); i++ {
+			f := st.Field(i)
+			c := fmt.Sprintf("%s#%s.%s", fname(caller), elemName, f.Name())
+			okAll, seen := true, false
+			for _, p := range pres.paths {
+				if !strings.HasPrefix(p.end, "RETURN") || !p.has("GET", "") {
+					continue
+				}
+				seen = true
+				if !p.has("SET", f.Name()) {
+					okAll = false
+				}
+			}
+			switch {
+			case pres.capHit || !seen:
+				r.undecided("C07/reinit", c, P.ipos(s.call), "cannot enumerate the paths from the generic acquisition to the caller's return")
+			case okAll:
+				r.ok("C07/reinit", c, P.ipos(s.call), "field definitely stored on every path from Pool.Get (in the generic helper) to the caller's return")
+			case sameField(f, R.FTest) && sameNamed(pt.Elem(), R.SchemaCtx) && testWBR:
+				r.ok("C07/reinit", c, P.ipos(s.call), "not stored at acquisition; discharged by write-before-read: "+testWBRDetail)
+			default:
+				r.bad("C07/reinit", c, P.ipos(s.call), fmt.Sprintf("field %s of pooled %s is not overwritten on every path between Pool.Get and return: a recycled object leaks the previous execution's value", f.Name(), elemName))
+			}
+		}
+	}
+	return n > 0
+}
+
 func isSyncPoolMethod(ci *callInfo, name string) bool {
 	if ci == nil || ci.static == nil {
 		return false
@@ -209,6 +300,11 @@ func checkC07(P *Prog, r *Result) {
 				r.bad("C07/reinit", c, P.ipos(s.call), "pooled slice is not re-sliced to a constant length at acquisition: previous path segments are observable", facts...)
 			}
 		default:
+			// a generic acquisition helper (`func newPooled[T any](pool, reset func(*T)) *T`): the element
+			// type and the re-initialisation belong to each caller; decide them on the callers' paths
+			if _, isTP := types.Unalias(s.elem).(*types.TypeParam); isTP && P.reinitThroughCallers(r, s, testWBR, testWBRDetail) {
+				continue
+			}
 			r.undecided("C07/reinit", fname(s.fn)+"#"+elemName, P.ipos(s.call), "pool element kind not modelled")
 		}
 	}
